@@ -49,7 +49,19 @@ inductive Elem (α : Type)
   | flow (nonneg : Bool) (eq : Ex α)    -- uniflow (`<non_negative/>`) or biflow
   | aux (eq : Ex α)
   | gf (eq : Ex α) (pts : List (α × α)) -- graphical function: LERP(eq, points)
+  | gflow (nonneg : Bool) (eq : Ex α) (pts : List (α × α))
+      -- (wave 2) a flow DEFINED by a graphical function (`<flow><eqn/><gf/></flow>`), uniflow or biflow:
+      -- `max([0 , ( LERP( eq, self.points[name]) )])` resp. `( LERP( eq, self.points[name]) )`
 deriving Repr, Inhabited
+
+/-- (wave 2) what `parse_xmile` does with `<non_negative/>`: it wraps the parsed equation of the entity in
+`max(0, ·)` — for a flow that is the flow equation (after the graphical function, if any), for a STOCK it is
+the *initial value* only (`StockExpressions` builds the recursion around it afterwards; the integration
+itself is not clamped: a "non-negative" stock of the generated model can go below zero). -/
+def nnWrap (nn : Bool) (e : Ex α) : Ex α := if nn then .mx (.int 0) e else e
+
+/-- an XMILE `<stock>` with or without `<non_negative/>` as the transpiler treats it -/
+def xStock (nn : Bool) (init : Ex α) (ins outs : List Nat) : Elem α := .stock (nnWrap nn init) ins outs
 
 structure Model (α : Type) where
   elems : List (Elem α)
@@ -161,6 +173,12 @@ def eulerF (C : Carrier α) (M : Model α) (tv : Nat → α) : Nat → Nat → N
       match evalEx C M.dtv (tv k) (fun m => eulerF C M tv f m k) e with
       | none => none
       | some x => lerp C pts x
+    | some (.gflow nn e pts) =>
+      match evalEx C M.dtv (tv k) (fun m => eulerF C M tv f m k) e with
+      | none => none
+      | some x => match lerp C pts x with
+        | none => none
+        | some v => some (if nn then pyMax C (C.int 0) v else v)
     | some (.stock init ins outs) =>
       match k with
       | 0 => evalEx C M.dtv (tv 0) (fun m => eulerF C M tv f m 0) init
@@ -229,6 +247,8 @@ def compileElem (n : Nat) : Elem α → Tm α
   | .flow false e => cEx .cur e
   | .aux e => cEx .cur e
   | .gf e pts => .lerp (cEx .cur e) pts
+  | .gflow true e pts => .mx (.int 0) (.lerp (cEx .cur e) pts)
+  | .gflow false e pts => .lerp (cEx .cur e) pts
 
 def exRefs : Ex α → List Nat
   | .ref n => [n]
@@ -244,6 +264,7 @@ def sameRefs : Elem α → List Nat
   | .flow _ e => exRefs e
   | .aux e => exRefs e
   | .gf e _ => exRefs e
+  | .gflow _ e _ => exRefs e
 
 /-- references evaluated one step back -/
 def prevRefs : Elem α → List Nat
@@ -252,6 +273,7 @@ def prevRefs : Elem α → List Nat
 
 def hasPoints : Elem α → Bool
   | .gf _ [] => false
+  | .gflow _ _ [] => false
   | _ => true
 
 /-- the `equations` dictionary of the generated class -/
@@ -265,6 +287,7 @@ inductive DslElem (α : Type)
   | biflow (eq : Ex α)
   | converter (eq : Ex α)
   | lookup (eq : Ex α) (pts : List (α × α))
+  | lookupFlow (nonneg : Bool) (eq : Ex α) (pts : List (α × α))   -- flow / biflow whose equation is `lookup(eq, pts)`
 deriving Repr, Inhabited
 
 def sumEx : Ex α → List Nat → Ex α
@@ -284,6 +307,7 @@ def toDsl : Elem α → DslElem α
   | .flow false e => .biflow e
   | .aux e => .converter e
   | .gf e pts => .lookup e pts
+  | .gflow nn e pts => .lookupFlow nn e pts
 
 def compileDslElem (n : Nat) : DslElem α → Tm α
   | .stock init eq => .ifStart (cEx .cur init) (.bin .add (.memo n .prev) (.bin .mul .dt (cEx .prev eq)))
@@ -291,6 +315,8 @@ def compileDslElem (n : Nat) : DslElem α → Tm α
   | .biflow e => cEx .cur e
   | .converter e => cEx .cur e
   | .lookup e pts => .lerp (cEx .cur e) pts
+  | .lookupFlow true e pts => .mx (.int 0) (.lerp (cEx .cur e) pts)
+  | .lookupFlow false e pts => .lerp (cEx .cur e) pts
 
 /-! ### Time values, memo, evaluation of the generated class -/
 
@@ -461,10 +487,37 @@ def cmpOf : BinOp → Option Cmp
   | .lt => some .lt | .le => some .le | .gt => some .gt | .ge => some .ge | .eq => some .eq
   | _ => none
 
-/-- element names in the probe are `e0, e1, …` -/
+/-! element names are `e<decimal index>`; the decimal coding is spelled out (instead of `String.toNat?`)
+so that the round trip `nameIx (nmG n) = some n` is provable for every `n` (wave 2) -/
+
+def digitChar (d : Nat) : Char := Char.ofNat (48 + d)
+
+def charDigit (c : Char) : Option Nat :=
+  if 48 ≤ c.toNat ∧ c.toNat ≤ 57 then some (c.toNat - 48) else none
+
+/-- positional decimal reading, most significant digit first -/
+def decAcc : Nat → List Char → Option Nat
+  | acc, [] => some acc
+  | acc, c :: cs => match charDigit c with
+    | none => none
+    | some d => decAcc (acc * 10 + d) cs
+
+def decNat : List Char → Option Nat
+  | [] => none
+  | cs => decAcc 0 cs
+
+/-- decimal digits of `n` (what Python's `str(n)` prints) -/
+def encNat (n : Nat) : List Char :=
+  if n < 10 then [digitChar n] else encNat (n / 10) ++ [digitChar (n % 10)]
+decreasing_by omega
+
+/-- the name of element `n` in generated models: Python `f"e{n}"` -/
+def nmG (n : Nat) : String := String.ofList ('e' :: encNat n)
+
+/-- element names are `e0, e1, …`: the index of a name -/
 def nameIx (s : String) : Option Nat :=
   match s.toList with
-  | 'e' :: r => (String.ofList r).toNat?
+  | 'e' :: r => decNat r
   | _ => none
 
 /-- the same on a fixed table of literals (reducible by the kernel, for the per-run obligations) -/
@@ -531,7 +584,56 @@ def skelPyP (s : String) (init : Py) (ins outs : List String) : Py :=
   .paren (.ite (.paren init) (.paren (.bin .le (.name "t") (selfAttr "starttime")))
     (.paren (.bin .add (memoPy s .prev) (.bin .mul (selfAttr "dt") (netPyP ins outs)))))
 
+/-! #### (wave 2) non-negative stocks and flows defined by a graphical function, as emitted -/
+
+open Bptk.Py in
+/-- `max([0 , init])`: what `<non_negative/>` makes of an equation (for a stock: of the initial value) -/
+def nnPy (e : Py) : Py := .call (.name "max") [.list [.num "0", e]]
+
+open Bptk.Py in
+/-- `( LERP( a, self.points["name"]) )`: the `lookup` builtin applied to the flow's own table -/
+def lerpPyP (name : String) (a : Py) : Py :=
+  .paren (.call (.name "LERP") [a, .index (selfAttr "points") (.str name)])
+
+open Bptk.Py in
+/-- the equation of a flow defined by a graphical function: uniflow / biflow -/
+def gflowPyP (nn : Bool) (name : String) (a : Py) : Py := if nn then nnPy (lerpPyP name a) else lerpPyP name a
+
 def flowIxs (from_ n : Nat) : List Nat := (List.range n).map (· + from_)
+
+/-! #### `JoinedExpression(names, "+")` (wave 2): the IR is nested to the RIGHT (`a + (b + (c + d))` as a
+tree, built by the `reduce` loop over `reversed(rest)`), but `parseExpression` prints `"{} + {}"` without
+parentheses, so the text is flat and Python reads it to the LEFT -/
+
+inductive JIR
+  | nothing
+  | ident (s : String)
+  | plus (l r : JIR)
+deriving Repr, Inhabited
+
+def joinedIR : List String → JIR
+  | [] => .nothing
+  | [a] => .ident a
+  | a :: b :: r => .plus (.ident a) (joinedIR (b :: r))
+
+open Bptk.Py in
+/-- tokens `parseExpression` emits for the IR inside `PREVIOUS(…)`: identifiers become
+`self.memoize('a',t-self.dt)`, `+` is `"{} + {}"` -/
+def renderJ : JIR → List Tok
+  | .nothing => []
+  | .ident a => pr (memoPy a .prev)
+  | .plus l r => renderJ l ++ Tok.op .add :: renderJ r
+
+open Bptk.Py in
+/-- wave-2 probe of larger shapes (run by the driver, any n): the emitted tokens are exactly the intended
+text of a stock `e0` with initial value `7.5`, inflows `e1..e<nin>`, outflows after them -/
+def skeletonTextOK (nin nout : Nat) (toks : List Tok) : Bool :=
+  decide (toks = pr (skelPyP (nmG 0) (.num "7.5") ((flowIxs 1 nin).map nmG) ((flowIxs (1 + nin) nout).map nmG)))
+
+open Bptk.Py in
+/-- the same for a NON-NEGATIVE stock: the initial value is `max([0 , 7.5])`, nothing else changes -/
+def skeletonTextNNOK (nin nout : Nat) (toks : List Tok) : Bool :=
+  decide (toks = pr (skelPyP (nmG 0) (nnPy (.num "7.5")) ((flowIxs 1 nin).map nmG) ((flowIxs (1 + nin) nout).map nmG)))
 
 open Bptk.Py in
 /-- one probed skeleton `(nin, nout, tokens)`: the stock is `e0` with initial value `7.5`, inflows
